@@ -22,7 +22,7 @@ import numpy as np
 from hypothesis import strategies as st
 
 from vf import gen, refsim, sfrun, spec
-from vf.core import Sub
+from vf.core import Sub, Violation
 
 RULE = ("programs of 1..3 modes, 1..6 commands over every parameterised Gaussian operation family with .H; each real parameter is, with "
         "probability 1/2, an expression tree (sum, product, negation, sin, cos, exp, sqrt, Abs, atan2) over free parameters a, b, c and "
@@ -50,7 +50,7 @@ ASSUMPTIONS = [
 REQUIRED_LABELS = {"all": ["free", "measured", "decomposed_symbolic", "optimised_symbolic", "remeasure", "use_before_measure", "unbound", "unknown_name",
                            "target:gaussian_unitary", "target:bosonic", "fn:atan2", "two_segments", "optimised_measured", "multi_mode_measurement", "error_then_rerun_dagger",
                            "rebind", "symbolic_merge_pair_optimised", "array_valued", "hbar_not_2", "target:passive", "mixed_free_measured", "heterodyne_complex",
-                           "symbolic_measurement_angle", "three_segments", "program_list"]}
+                           "symbolic_measurement_angle", "three_segments", "program_list", "par_convert:two_digit_mode_index", "par_convert:free_and_measured"]}
 
 FAMS = ["Dgate", "Sgate", "Rgate", "BSgate", "S2gate", "MZgate", "Xgate", "Zgate", "Pgate", "CXgate", "CZgate", "LossChannel", "ThermalLossChannel",
         "Coherent", "Squeezed", "DisplacedSqueezed", "Thermal", "sMZgate"]
@@ -1016,6 +1016,70 @@ def check_mm(ctx, case):
     return None
 
 
+# ----------------------------------------------------------------------------------------------
+# parameters.par_convert: symbols of a loaded (Blackbird / XIR) program -> measured / free parameters of the Program
+# ----------------------------------------------------------------------------------------------
+PC_FNS = ["id", "sin", "exp", "sq", "neg"]
+
+
+@st.composite
+def pc_case(draw):
+    n = draw(st.sampled_from([1, 2, 3, 5, 9, 10, 11, 12, 20, 21, 25, 101]))
+    terms = []
+    for _ in range(draw(st.integers(1, 3))):
+        if draw(st.integers(0, 3)) == 0:
+            leaf = ["free", draw(st.sampled_from(["a", "theta", "p1", "x", "alpha", "r_q1"]))]
+        else:
+            leaf = ["meas", draw(st.one_of(st.integers(0, n - 1), st.just(n - 1)))]
+        terms.append([draw(gen.real(-2.0, 2.0, (1.0, -1.0))), draw(st.sampled_from(PC_FNS)), leaf])
+    vals = {str(m): draw(gen.fl(-1.0, 1.0)) for m in sorted({t[2][1] for t in terms if t[2][0] == "meas"})}
+    free = {nm: draw(gen.fl(-1.0, 1.0)) for nm in sorted({t[2][1] for t in terms if t[2][0] == "free"})}
+    return {"n": n, "terms": terms, "vals": vals, "free": free}
+
+
+def check_pc(ctx, case):
+    """par_convert must bind the symbol q<N> to the measured value of subsystem N (every N, every number of digits) and every other symbol to
+    the free parameter of that name; the converted expression evaluates to the arithmetic done by the harness on the numbers"""
+    import sympy
+    import strawberryfields as sf
+    from strawberryfields import parameters as P
+
+    n = case["n"]
+    fns = {"id": (lambda x: x, lambda x: x), "sin": (sympy.sin, np.sin), "exp": (sympy.exp, np.exp), "sq": (lambda x: x ** 2, lambda x: x ** 2), "neg": (lambda x: -x, lambda x: -x)}
+    e, want = 0, 0.0
+    for c, f, leaf in case["terms"]:
+        sym = sympy.Symbol(("q%d" % leaf[1]) if leaf[0] == "meas" else leaf[1])
+        v = case["vals"][str(leaf[1])] if leaf[0] == "meas" else case["free"][leaf[1]]
+        e = e + c * fns[f][0](sym)
+        want += c * float(fns[f][1](v))
+    srcs = sorted(int(m) for m in case["vals"])
+    labels = ["par_convert"] + (["par_convert:two_digit_mode_index"] if any(m >= 10 for m in srcs) else []) + (["par_convert:free_and_measured"] if case["free"] and srcs else [])
+    ctx.note(case, nontrivial=bool(srcs), labels=labels)
+    if not isinstance(e, sympy.Basic) or not e.free_symbols:
+        return None  # the terms cancelled
+    prog = sf.Program(n)
+    try:
+        out = P.par_convert([e, 0.37], prog)
+        deps = sorted(r.ind for r in P.par_regref_deps(out[0]))
+        live = sorted(int(str(s_)[1:]) for s_ in e.free_symbols if str(s_)[0] == "q")
+        if deps != live:
+            return ctx.fail("par_convert.measured_parameter_refers_to_wrong_mode", "symbols q%s were converted to measured parameters of subsystems %s (register of %d)" % (live, deps, n))
+        if out[1] != 0.37:
+            return ctx.fail("par_convert.number_changed", "0.37 -> %r" % (out[1],))
+        for m, v in case["vals"].items():
+            prog.register[int(m)].val = v
+        if case["free"]:
+            prog.bind_params({nm: v for nm, v in case["free"].items() if nm in prog.free_params})
+        got = complex(P.par_evaluate(out[0]))
+    except Violation:
+        raise
+    except Exception as exc:  # pylint: disable=broad-except
+        return ctx.crash(exc, "par_convert")
+    if abs(got - want) > 1e-9 * (1 + abs(want)):
+        return ctx.fail("par_convert.value_differs", "converted expression evaluates to %s, the arithmetic on the numbers gives %s (sources %s)" % (got, want, srcs))
+    return None
+
+
 SUBS = [
     Sub("substitution", check=check_sub, strategy=lambda ctx: sub_case(), examples={"quick": 500, "thorough": 5000}, shards={"quick": 3, "thorough": 16},
         rule="expression trees over free parameters on every Gaussian family, all compile targets (incl. passive), optimize on/off, bind by name/object, before/after compile, "
@@ -1029,6 +1093,9 @@ SUBS = [
         rule="unbound / partially bound / unknown parameters (also inside a measurement angle or an array, also for a program without parameters) raise ParameterError"),
     Sub("isolation", check=check_iso, strategy=lambda ctx: iso_case(), examples={"quick": 20, "thorough": 100}, shards={"quick": 1, "thorough": 1},
         rule="two programs with the same parameter names do not influence each other"),
+    Sub("par_convert", check=check_pc, strategy=lambda ctx: pc_case(), examples={"quick": 300, "thorough": 3000}, shards={"quick": 1, "thorough": 2},
+        rule="parameters.par_convert (how loaded Blackbird / XIR programs get their parameters) on expressions over q<N> (N up to 100) and free symbols: "
+             "dependencies are exactly the subsystems N, the value is the harness' arithmetic on the outcomes / bound values"),
 ]
 
 MANIFEST = {
